@@ -7,7 +7,7 @@ returns the smaller of the two strands and the flip flag, min_rc its first compo
 Exts::rc as an 8-bit lemma (sides swapped, bases complemented) and its use on flipped observations; flag plumbing: every
 public entry passes its `stranded` argument unchanged to the graph and to the worker, combine keeps it (also when some
 shard graphs are empty); reverse-complemented views (the usual way to hand over an rc read) remap get / get_kmer / slice exactly."""
-from .. import dt_tables, dt_graph, dt_filter, dt_compress, dt_seq, lemmas
+from .. import dt_tables, dt_graph, dt_filter, dt_compress, dt_seq, dt_msp, lemmas
 from . import common
 
 ASSUMPTIONS = ["invariance of whole outputs under reverse-complementing reads is a relational fact and is not decided; the clauses above are its mechanisms"]
@@ -28,3 +28,7 @@ def run(F, rep):
     rep.run(lemmas.exts_lemmas, F, rep)
     # reads handed over as reverse-complemented views: the view's k-mers are the reverse complements of the substring's k-mers
     rep.run(dt_seq.slice_view_tables, F, rep, "C06.7")
+    # strand-symmetric sharding: the score is symmetric in a p-mer and its reverse complement and is compared in full
+    rep.run(dt_msp.score_closure_tables, F, rep, "C06.8")
+    rep.run(dt_msp.minpos_order_tables, F, rep, "C06.8")
+    rep.run(dt_msp.scan_tables, F, rep, "C06.8")
